@@ -8,6 +8,7 @@ package lincon
 import (
 	"fmt"
 	"go/token"
+	"go/types"
 	"sort"
 
 	"golang.org/x/tools/go/ssa"
@@ -114,6 +115,61 @@ func (h *Handle) Field(base ssa.Value, field int, name string, unsigned bool) Li
 	}
 	h.S.cells[key] = AInt{tvar(t)}
 	return tvar(t)
+}
+
+// SliceFieldLen returns the linear form of len(base.<field index>) for a
+// slice- or string-typed field of an object the function received, creating
+// the cell if it does not exist yet.
+func (h *Handle) SliceFieldLen(base ssa.Value, field int, name string, t types.Type) (Lin, bool) {
+	key := cellKey{h.Ctx, base, fmt.Sprintf(".%d", field)}
+	if cv, ok := h.S.cells[key]; ok {
+		if sv, ok := cv.(AStr); ok {
+			return sv.n, true
+		}
+		return Lin{}, false
+	}
+	av := h.A.fresh(h.S, fmt.Sprintf("cell|%d|%p|.%d", h.Ctx, base, field), "cell."+name, t)
+	sv, ok := av.(AStr)
+	if !ok {
+		return Lin{}, false
+	}
+	h.S.cells[key] = sv
+	return sv.n, true
+}
+
+// BoolField returns the value of a Boolean field of an object the function
+// received, when the state knows it (tested on this path or stored).
+func (h *Handle) BoolField(base ssa.Value, field int) (val, known bool) {
+	cv, ok := h.S.cells[cellKey{h.Ctx, base, fmt.Sprintf(".%d", field)}]
+	if !ok {
+		return false, false
+	}
+	if b, ok := cv.(ABool); ok && b.konst != nil {
+		return *b.konst, true
+	}
+	return false, false
+}
+
+// SliceView returns the abstract view (backing object, offset, length) of a
+// string or slice value.
+func (h *Handle) SliceView(v ssa.Value) (obj int, off, n Lin, ok bool) {
+	switch x := h.A.val(h.S, h.Ctx, v).(type) {
+	case AStr:
+		return int(x.obj), x.off, x.n, true
+	case ANil:
+		return -1, konst(0), konst(0), true
+	}
+	return 0, Lin{}, Lin{}, false
+}
+
+// SliceFieldObj returns the backing object of a slice-typed field cell.
+func (h *Handle) SliceFieldObj(base ssa.Value, field int) (int, bool) {
+	if cv, ok := h.S.cells[cellKey{h.Ctx, base, fmt.Sprintf(".%d", field)}]; ok {
+		if sv, ok := cv.(AStr); ok {
+			return int(sv.obj), true
+		}
+	}
+	return 0, false
 }
 
 // Cell returns the integer content of a field of a local object (alloc) given
